@@ -38,6 +38,7 @@ static const char *const HOST_V[] = {"h", "a.b", "1.2.3.4", "[::1]", "[a:b::c]",
                                      /* thorough */ "localhost", "[::]", "[fe80::1%25en0]", "a-b.example.com"};
 /* port is written with its ':' */
 static const char *const PORT_V[] = {"", ":", ":0", ":80", ":4294967295", ":4294967296", ":99999999999999999999", ":8x",
+                                     ":00000000443", /* 11 digits, value 443: leading zeros are digits like any other (RFC 3986 port = *DIGIT) */
                                      /* thorough */ ":1", ":65535", ":65536", ":4294967294", ":04294967295", ":000",
                                      ":18446744073709551615", ":18446744073709551616", ":-1", ":+1", ":8 ", ":x"};
 static const char *const PATH_V[] = {"", "/", "/p", "/p/q", /* thorough */ "/p/", "/a:b", "/x@y", "/%2F"};
@@ -47,7 +48,7 @@ static const char *const QUERY_V[] = {"", "?", "?a", "?a=1", "?a=1&b", "?&&a=&",
                                        * estimate that only bites with >= 2 empty values) */
                                       "?a&b", "?a=&b=&c=x", "?a&b&c",
                                       /* thorough */ "?a=1&a=2", "?=v", "?a==&&", "?%41=%3d&x"};
-static const struct cset SCHEMES = CSET(SCHEME_V, 3), UINFOS = CSET(UINFO_V, 5), HOSTS = CSET(HOST_V, 6), PORTS = CSET(PORT_V, 8),
+static const struct cset SCHEMES = CSET(SCHEME_V, 3), UINFOS = CSET(UINFO_V, 5), HOSTS = CSET(HOST_V, 6), PORTS = CSET(PORT_V, 9),
                          PATHS = CSET(PATH_V, 4), QUERIES = CSET(QUERY_V, 10);
 /* numeric ports for the builder (0 = no port) */
 static const uint32_t BPORT_V[] = {0, 1, 80, 65535, 4294967295u, /* thorough */ 9, 10, 65536, 999999999, 1000000000, 2147483648u, 4294967294u};
